@@ -136,6 +136,10 @@ class Facts:
             return {0: "None", 1: "Some"}.get(discr)
         if base in ("std::result::Result", "core::result::Result"):
             return {0: "Ok", 1: "Err"}.get(discr)
+        if base in ("std::ops::ControlFlow", "core::ops::ControlFlow"):
+            return {0: "Continue", 1: "Break"}.get(discr)
+        if base in ("std::task::Poll", "core::task::Poll"):
+            return {0: "Ready", 1: "Pending"}.get(discr)
         if base in ("std::cmp::Ordering", "core::cmp::Ordering"):
             return {255: "Less", -1: "Less", 0: "Equal", 1: "Greater"}.get(discr)
         a = self.adts.get(base)
@@ -713,6 +717,10 @@ def edge_literals(body, bi):
             allv = ["None", "Some"]
         elif base.endswith("result::Result"):
             allv = ["Ok", "Err"]
+        elif base.endswith("ops::ControlFlow"):
+            allv = ["Continue", "Break"]
+        elif base.endswith("task::Poll"):
+            allv = ["Ready", "Pending"]
         else:
             a = body.facts.adts.get(base)
             if a and a["kind"] == "Enum":
